@@ -12,6 +12,9 @@ import (
 	"golang.org/x/tools/go/ssa"
 )
 
+// analysedFuncs records every function instance summarised during this run (for the evidence file).
+var analysedFuncs = map[string][2]int{}
+
 type termExit struct {
 	Guard *Term
 	Ev    *Event
@@ -48,6 +51,7 @@ func (x *Ext) Summarize(fn *ssa.Function, args []*Term, free []*Term) *Summary {
 	sum.Top.Events(func(e *Event, _ []*LoopS) { sum.NEvents++ })
 	sum.Top.AllLoops(func(l *LoopS) { sum.NLoops++ })
 	sum.Undecided = append(sum.Undecided, x.Und...)
+	analysedFuncs[shortFn(fn)] = [2]int{sum.NLoops, sum.NEvents}
 	return sum
 }
 
